@@ -62,6 +62,45 @@ class FuncRef:
         return f"<function {self.finfo.key}>"
 
 
+class Closure:
+    """A function defined inside a function: called with the defining environment (by reference) extended by its parameters."""
+
+    def __init__(self, runner, node, interp):
+        self.runner, self.node, self.interp = runner, node, interp
+
+    def __call__(self, *args, **kw):
+        node = self.node
+        params = [a.arg for a in node.args.args]
+        env = self.interp.env  # shared: assignments to free variables are not modelled (nonlocal is rejected below)
+        if any(isinstance(n, (ast.Nonlocal, ast.Global)) for n in ast.walk(node)):
+            raise AnalysisError("object model: nested function with nonlocal/global")
+        local = dict(env)
+        defaults = node.args.defaults
+        for i, p_ in enumerate(params):
+            if i < len(args):
+                local[p_] = args[i]
+            elif p_ in kw:
+                local[p_] = kw[p_]
+            else:
+                j = i - (len(params) - len(defaults))
+                if j < 0:
+                    raise AnalysisError(f"object model: missing argument {p_!r} for nested function {node.name}")
+                local[p_] = self.interp.ev(defaults[j])
+        it = Interp(local, call_hook=self.runner.hook, loop_hook=self.runner.loop, strict=True, name_hook=self.runner.names, attr_hook=self.runner.attrs)
+        it.str_hook, it.def_hook = self.runner.text_of, self.runner.closure
+        body = node.body if isinstance(node, ast.FunctionDef) else [ast.Return(value=node.body)]
+        try:
+            it.run(body)
+        except Flow as fl:
+            if fl.kind == "return":
+                return fl.value
+            raise
+        return None
+
+    def __deepcopy__(self, memo):
+        return self
+
+
 class GenModel:
     """A generator object: the generator function's body is interpreted in a thread of its own that runs only between a next() and the
     following yield (strict hand-over), so the interleaving with the consumer is the one Python has."""
@@ -235,7 +274,7 @@ class ObjRunner:
             full.setdefault(k, v)
         it = (ForkInterp(full, self.oracle, call_hook=self.hook, loop_hook=self.loop, strict=True, name_hook=self.names, attr_hook=self.attrs) if self.fork
               else Interp(full, call_hook=self.hook, loop_hook=self.loop, strict=True, name_hook=self.names, attr_hook=self.attrs))
-        it.str_hook = self.text_of
+        it.str_hook, it.def_hook = self.text_of, self.closure
         it.run(stmts)
         return it.env
 
@@ -286,7 +325,7 @@ class ObjRunner:
                 env.setdefault(k, v)
             it = (ForkInterp(env, self.oracle, call_hook=self.hook, loop_hook=self.loop, strict=True, name_hook=self.names, attr_hook=self.attrs) if self.fork
                   else Interp(env, call_hook=self.hook, loop_hook=self.loop, strict=True, name_hook=self.names, attr_hook=self.attrs))
-            it.str_hook = self.text_of
+            it.str_hook, it.def_hook = self.text_of, self.closure
             if _as_generator:
                 it.yield_hook = self._emit
             try:
@@ -300,6 +339,9 @@ class ObjRunner:
             return None
         finally:
             self.depth -= 1
+
+    def closure(self, interp, node):
+        return Closure(self, node, interp)
 
     def _emit(self, value):
         if not self._yield_stack:
@@ -354,6 +396,8 @@ class ObjRunner:
         target_rel = self._module_alias(node, node.value.id)
         if target_rel is not None:
             mod = self.prog.modules[target_rel]
+            if not is_callee and f"{target_rel}::{node.attr}" in self.prog.funcs:
+                return FuncRef(self, self.prog.funcs[f"{target_rel}::{node.attr}"])  # module.function used as a value
             for st in mod.tree.body:
                 if isinstance(st, ast.ClassDef) and st.name == node.attr:
                     return self.class_ref(node.attr, st)
@@ -370,6 +414,19 @@ class ObjRunner:
         f = self.find(cls, attr)
         if f is not None and any(U(d) in ("property", "functools.cached_property", "cached_property") for d in f.node.decorator_list):
             return self.run_function(f, base, (), {})
+        if f is not None and node is not None and not (isinstance(getattr(node, "_parent", None), ast.Call) and node._parent.func is node):
+            return FuncRef(self, f, selfobj=base)  # a bound method used as a value
+        # an attribute of the class (a constant assigned in the body of the class or of one of its bases)
+        c = self.cinfo(cls)
+        if c is not None and f is None:
+            from .core import try_fold
+            for k in self.prog.mro(c):
+                for st in k.node.body:
+                    tgt = st.targets[0] if isinstance(st, ast.Assign) and len(st.targets) == 1 else st.target if isinstance(st, ast.AnnAssign) else None
+                    if isinstance(tgt, ast.Name) and tgt.id == attr and getattr(st, "value", None) is not None:
+                        v = try_fold(st.value, self.module_env(k.module.rel))
+                        if v is not None or (isinstance(st.value, ast.Constant) and st.value.value is None):
+                            return v
         return NotImplemented
 
     def text_of(self, obj, kind, node):
@@ -554,7 +611,8 @@ class ObjRunner:
                 except (KeyError, TypeError) as exc:
                     raise Flow("raise", f"{type(exc).__name__}({str(exc)!r})", call) from None
             if isinstance(recv, str) and attr in ("isalpha", "isalnum", "isupper", "islower", "isnumeric", "isdecimal", "title", "capitalize", "swapcase",
-                                                  "center", "ljust", "rjust", "zfill", "partition", "rpartition", "rsplit", "splitlines", "casefold"):
+                                                  "center", "ljust", "rjust", "zfill", "partition", "rpartition", "rsplit", "splitlines", "casefold", "removeprefix", "removesuffix",
+                                                  "expandtabs", "istitle", "isidentifier", "isascii"):
                 return getattr(recv, attr)(*args)
             if isinstance(recv, str) and attr in ("isspace", "find", "replace", "isdigit", "split", "join", "rstrip", "lstrip", "count", "index", "format"):
                 return getattr(recv, attr)(*args)
@@ -586,6 +644,8 @@ class ObjRunner:
                 raise Flow("raise", f"{type(exc).__name__}({str(exc)!r})", call) from None
         if isinstance(call.func, ast.Name) and callable(interp.env.get(name)) and not isinstance(interp.env.get(name), dict):
             return self._apply(interp.env[name], args, kw, call)  # a function held in a variable (table dispatch, parameter)
+        if isinstance(call.func, ast.Name) and isinstance(interp.env.get(name), dict) and interp.env[name].get("__is_class__") and name not in ("cls",):
+            return self.new(interp.env[name]["__class__"], *args, **kw)  # a class held in a variable (klass = REGISTRY[name]; klass(line))
         if isinstance(call.func, ast.Name) and name not in interp.env:
             genv = self.module_env(getattr(getattr(call, "_module", None), "rel", self.rel))
             if callable(genv.get(name)) and not isinstance(genv.get(name), dict):
@@ -594,12 +654,21 @@ class ObjRunner:
             fn_ = interp.ev(call.func)
             if callable(fn_) and not isinstance(fn_, dict):
                 return self._apply(fn_, args, kw, call)  # TABLE[key](...)
+            if isinstance(fn_, dict) and fn_.get("__is_class__"):
+                return self.new(fn_["__class__"], *args, **kw)  # a registry of classes
         if isinstance(call.func, ast.Call):
             fn_ = interp.ev(call.func)
             if callable(fn_) and not isinstance(fn_, dict):
                 return self._apply(fn_, args, kw, call)  # TABLE.get(key, default)(...)
         if name.startswith("operator.") and hasattr(__import__("operator"), name[9:]) and "operator" not in interp.env:
             return self._apply(getattr(__import__("operator"), name[9:]), args, kw, call)
+        if name == "next" and name not in interp.env and args and isinstance(args[0], list) and isinstance(call.args[0], (ast.GeneratorExp, ast.ListComp)):
+            # next(<generator expression>, default): the first element (the expression was evaluated eagerly; its elements have no effects here)
+            if args[0]:
+                return args[0][0]
+            if len(args) > 1:
+                return args[1]
+            raise Flow("raise", "StopIteration()", call)
         if name == "next" and name not in interp.env and args and isinstance(args[0], GenModel):
             try:
                 return next(args[0])
@@ -609,6 +678,20 @@ class ObjRunner:
                 raise Flow("raise", "StopIteration()", call) from None
         if name == "iter" and name not in interp.env and len(args) == 1 and isinstance(args[0], (list, tuple, GenModel)):
             return args[0] if isinstance(args[0], GenModel) else iter(list(args[0]))
+        if name in ("functools.partial", "partial") and name not in interp.env and args and callable(args[0]) and not isinstance(args[0], dict):
+            fn0, pre, prekw, me = args[0], list(args[1:]), dict(kw), self
+            return lambda *a, **k: me._apply(fn0, pre + list(a), {**prekw, **k}, call)
+        if name in ("operator.methodcaller", "methodcaller") and name not in interp.env and args and isinstance(args[0], str):
+            mname, margs, mkw, me = args[0], list(args[1:]), dict(kw), self
+
+            def call_method(obj, mname=mname, margs=margs, mkw=mkw):
+                if isinstance(obj, dict) and "__class__" in obj:
+                    return me.call(obj, mname, *margs, **mkw)
+                return getattr(obj, mname)(*margs, **mkw)
+            return call_method
+        if name in ("operator.itemgetter", "itemgetter", "operator.attrgetter", "attrgetter") and name not in interp.env and len(args) == 1:
+            key_, by_attr = args[0], name.endswith("attrgetter")
+            return (lambda o: o[key_]) if not by_attr or isinstance(key_, int) else (lambda o: o[key_] if isinstance(o, dict) else getattr(o, key_))
         if name in ("types.MappingProxyType", "MappingProxyType") and len(args) == 1 and isinstance(args[0], dict):
             return args[0]  # a read-only view: the mapping itself, for evaluation purposes
         if name in ("Path", "pathlib.Path", "PurePath", "pathlib.PurePath") and name not in interp.env and len(args) == 1 and (
